@@ -317,6 +317,20 @@ func makeTask(s spec, w *world, rec *Rec) func() {
 			for q := 0; q < count; q++ {
 				n := 1 + int(r.Next()%uint64(N))
 				mg := randomModel(n, int(r.Next()%1000), 1+int(r.Next()%7))
+				if N > 20 {
+					// a large independent set attached to three hubs: a cell of more than 20 vertices that
+					// is shattered by multi-valued neighbour counts (the stable-sort path of the refinement)
+					n = N
+					mg = model.NewG(n)
+					for v := 3; v < n; v++ {
+						for h := 0; h < 3; h++ {
+							if r.Next()%2 == 0 {
+								mg.Add(h, v)
+							}
+						}
+					}
+					mg.Add(0, 1)
+				}
 				nb := make([][]int, n)
 				for v := 0; v < n; v++ {
 					nb[v] = []int{}
@@ -1135,6 +1149,10 @@ func drawSpec(r *driver.Run, k int, thorough bool) spec {
 		s.p = [6]int{n, t.Draw(m), m, t.Draw(3), []int{0, 0, 1, 3, 10}[t.Draw(5)]}
 	case kLabeller:
 		s.p = [6]int{t.Range(2, 8), t.Range(1, 8), t.Draw(1000)}
+		if t.Chance(1, 8) {
+			s.p[0] = t.Range(21, 26)
+			s.p[1] = t.Range(1, 3)
+		}
 	case kIterator:
 		s.p = [6]int{t.Draw(13), t.Draw(6), t.Draw(6)}
 	case kComb, kDawgQuery, kSets, kDSU:
